@@ -36,10 +36,11 @@ func init() {
 			return []string{"release", "386"}
 		},
 		Exhaustive: nil,
-		Required:   []string{"field/l=0", "field/l=h", "field/h=32", "field/h=0", "order/ancestor-descendant", "order/left-right-subtrees", "order/equal", "order/h>=13"},
+		Required:   []string{"cold-start/all-ones-path-first", "field/l=0", "field/l=h", "field/h=32", "field/h=0", "order/ancestor-descendant", "order/left-right-subtrees", "order/equal", "order/h>=13"},
 		Families: func(c *mon.Config) []mon.Family {
 			hp := c.Pick(8, 12)
 			return []mon.Family{
+				{Name: "cold-start", N: 1, Serial: true, Run: c10Cold},
 				{Name: "fields-small", N: 13, Run: c10FieldsSmall},
 				{Name: "fields-large", N: 20 * c.Pick(100, 50000), Run: c10FieldsLarge},
 				{Name: "order-all-pairs", N: (1 << uint(hp+1)) * 2, Run: func(w *mon.W, idx int) { c10OrderAll(w, idx, hp) }},
@@ -254,4 +255,18 @@ func c10OrderSampled(w *mon.W, idx int) {
 		}
 	}
 	w.Sample(func() interface{} { return mon.D{"height": h, "sampled_pairs": 100} })
+}
+
+// c10Cold is the very first thing the process does: the accessors are called on the path words that
+// look like typical "nothing yet" sentinels (all ones, zero) before anything else has been rendered.
+func c10Cold(w *mon.W, _ int) {
+	for _, c := range []struct {
+		h, l   int
+		prefix uint64
+	}{{32, 32, 0xffffffff}, {0, 0, 0}, {32, 0, 0}, {32, 32, 0}, {1, 1, 1}, {31, 31, 0x7fffffff}} {
+		if _, ok := c10CheckFields(w, c.h, c.l, c.prefix); !ok {
+			return
+		}
+	}
+	w.Bucket("cold-start/all-ones-path-first")
 }
